@@ -993,7 +993,7 @@ impl Tokenizer {
         }
 
         self.data.start = self.raw.end;
-        let mut brackets = 0;
+        let mut brackets: usize = 0;
 
         loop {
             let byte = self.read_byte() as char;
